@@ -21,7 +21,10 @@ Consts == [Cap |-> Cap, Array |-> Array, MaxV |-> MaxV]
 Init == /\ slots = [i \in Idx |-> 0] /\ sendIdx = 0 /\ recvIdx = 0 /\ size = 0 /\ dead = FALSE
         /\ evt = [op |-> "init"] /\ ObsInit
 
-Emit(e) == LET full == e @@ [dropped |-> <<>>] IN evt' = full /\ ObsStep(full)
+\* (events of the array flavour carry the raw indices; a dropped buffer reports none)
+Emit(e) == LET full == IF Array /\ ~dead' THEN e @@ [dropped |-> <<>>, idx |-> [size |-> size', recv |-> recvIdx', send |-> sendIdx']]
+                       ELSE e @@ [dropped |-> <<>>]
+           IN evt' = full /\ ObsStep(full)
 
 NextIdx(i) == IF i + 1 = Cap THEN 0 ELSE i + 1
 \* contents in FIFO order: size cells starting at recvIdx
